@@ -68,6 +68,9 @@ def build_chunk(case):
     bx, by, bz = case["block"]
     rng = np.random.default_rng(case["seed"])
     out = np.zeros((C, Z, Y, X), dtype=dtype)
+    if case.get("uniform"):
+        out[...] = value_pool(rng, case["values"], dtype, 1)[0]
+        return out
     prev = None
     for c in range(C):
         for z0 in range(0, Z, bz):
@@ -105,6 +108,7 @@ def cases(draw):
         "values": draw(st.sampled_from(["small", "ge2^32", "ge2^53", "max",
                                         "mid"])),
         "share": draw(st.booleans()),
+        "uniform": draw(st.integers(0, 11)) == 0,
         "seed": draw(st.integers(0, 2 ** 32 - 1)),
     }
 
@@ -121,6 +125,9 @@ def check_chunk(ctx, chunk, block, dtype_name, what):
             # layer: encode another chunk first, and this one twice
             other = np.roll(chunk, 1, axis=3) + chunk.dtype.type(1)
             enc.encode(other)
+            # ... and a chunk with the same labels and voxel count but another
+            # shape (border chunks of one scale differ in shape only)
+            enc.encode(np.ascontiguousarray(chunk.transpose(0, 3, 2, 1)))
             first = bytes(enc.encode(chunk))
         buf = bytes(enc.encode(chunk))
         if chunk.size <= 4096 and buf != first:
